@@ -4593,3 +4593,31 @@ pub mod benches {
 		bench.bench_function("write_network_graph", |b| b.iter(|| black_box(&net_graph).encode()));
 	}
 }
+
+/// Read-only accessors for crate-private [`NetworkGraph`] state (removal tracking and
+/// announcement receipt times).
+#[cfg(feature = "_verif_hooks")]
+pub mod verif_hooks_gossip {
+	use super::*;
+
+	/// The contents of `removed_channels`, sorted by short channel id.
+	pub fn removed_channels<L: Logger>(graph: &NetworkGraph<L>) -> Vec<(u64, Option<u64>)> {
+		let mut res: Vec<_> =
+			graph.removed_channels.lock().unwrap().iter().map(|(k, v)| (*k, *v)).collect();
+		res.sort();
+		res
+	}
+
+	/// The contents of `removed_nodes`, sorted by node id.
+	pub fn removed_nodes<L: Logger>(graph: &NetworkGraph<L>) -> Vec<(NodeId, Option<u64>)> {
+		let mut res: Vec<_> =
+			graph.removed_nodes.lock().unwrap().iter().map(|(k, v)| (*k, *v)).collect();
+		res.sort();
+		res
+	}
+
+	/// The time at which the announcement of `channel` was received.
+	pub fn announcement_received_time(channel: &ChannelInfo) -> u64 {
+		channel.announcement_received_time
+	}
+}
